@@ -128,6 +128,9 @@ def check_point(ctx, label, sysm, idx, degrees, n_dir):
                     errsA[key].append(abs(Hval - Eloc))
                     errsB[key].append(np.abs(A @ cdot - ref.field(s, mu)).max() / gam)
             ctx.case(f"direction:L{idx}:N{N}", [label, N, d.round(8).tolist()], nontrivial=True)
+            if len(ctx.samples) < 4:
+                ctx.sample({"point": label, "mu": mu, "N": N, "direction": d, "radii": [0.3 * dmin, 0.15 * dmin, 0.075 * dmin],
+                            "value_err": errsA["lib"], "value_bound": [b_[0] for b_ in bnds], "field_err": errsB["lib"], "field_bound": [b_[1] for b_ in bnds]})
 
             def wit():
                 return {"point": label, "mu": mu, "N": N, "direction": d, "radii": [0.3 * dmin, 0.15 * dmin, 0.075 * dmin],
